@@ -61,7 +61,7 @@ def _validator_def(nm, v, prov, indent="    "):
 
 def render(spec, cls_suffix=""):
     uid = f"{spec['uid']}{cls_suffix}"
-    L = []
+    L = list(spec.get("prelude", []))
     listeners = [p for p in spec["providers"] + spec.get("late", []) if p not in ("sm", "model")]
     # listener + model classes
     for prov in listeners + ["model"]:
@@ -69,7 +69,21 @@ def render(spec, cls_suffix=""):
         L.append(f"class {cname}:")
         body = []
         if prov == "model":
-            body.append(f"    {spec.get('state_field', 'state')} = None")
+            fld = spec.get("state_field", "state")
+            shape = spec.get("model_shape", "attr")
+            if shape in ("attr", "default"):
+                body.append(f"    {fld} = None")
+            elif shape == "missing":
+                pass
+            elif shape == "property":
+                body += ["    def __init__(self):", "        self._stored = None", "    @property", f"    def {fld}(self):",
+                         "        return self._stored", f"    @{fld}.setter", f"    def {fld}(self, v):", "        self._stored = v"]
+            elif shape == "falsy_len":
+                body += [f"    {fld} = None", "    def __len__(self):", "        return 0"]
+            elif shape == "falsy_bool":
+                body += [f"    {fld} = None", "    def __bool__(self):", "        return False"]
+            elif shape == "instance_attr":
+                body += ["    def __init__(self):", f"        self.{fld} = None"]
         for cid, cb in spec["cbs"].items():
             if cb["provider"] == prov:
                 body += _cb_def(cid, cb)
